@@ -75,7 +75,7 @@ GRID = {'Bernoulli': [['1/3']], 'DiscreteUniform': [['-1', '2']], 'Normal': [['0
 
 
 def items(tier, seed):
-    triples = [(0, 1, 0), (0, 0, 1), (1, 1, 0), (0, 2, 0), (0, 1, 1), (1, 2, 3), (2, 0, 1), (0, 3, 0), (2, 1, 1), (0, 0, 2), (1, 0, 3)]
+    triples = [(0, 1, 0), (0, 0, 1), (1, 1, 0), (0, 2, 0), (0, 1, 1), (1, 2, 3), (2, 0, 1), (0, 3, 0), (2, 1, 1), (0, 0, 2), (1, 0, 3), (1, 2, 0)]      # (1,2,0): the cf-derivative-at-0 term (D24)
     if tier != 'quick': triples += [(3, 2, 1), (0, 4, 0), (1, 3, 2), (4, 1, 0), (0, 2, 2), (2, 2, 2)]
     exps = [(0, 1), (1, 1), (0, 2), (2, 1), (1, 3), (0, 4), (1, 5), (0, -1)] + ([(3, 2), (2, 4)] if tier != 'quick' else [])
     its = []
